@@ -14,7 +14,8 @@ import (
 	"github.com/internetarchive/Zeno/internal/verif/vrt/vsched"
 )
 
-const host = "site.example"
+// a host with a port, as req.URL.Host carries it for every non-default port (the limiter is keyed by that string)
+const host = "site.example:8080"
 
 // cvariant: waiter i sleeps Start[i] and then calls Wait Acquires[i] times; Script = the adjuster's events
 // ("f429", "ok", "+1s"). Two waiters that poll at the same instants multiply the interleavings at every 50 ms tick
